@@ -65,3 +65,77 @@ func runGenDump(cfg Config, args []string) int {
 	fmt.Printf("world %d kind=%s at %s\n", idx, m.Kind, dir)
 	return 0
 }
+
+// runTransparency is the seam-transparency self-check: fault-free runs with
+// the seam-instrumented binary (empty plan) and with the plain binary must be
+// indistinguishable (status, stdout, normalised stderr, output bytes, tree
+// diff). A disagreement means the harness is wrong: exit 2, never a VIOLATION.
+func runTransparency(cfg Config, args []string) int {
+	env, err := sim.Prepare(cfg.Repo)
+	defer env.Cleanup()
+	if err != nil {
+		fmt.Println("INFRASTRUCTURE:", err)
+		return 2
+	}
+	worlds, err := BuildWorlds(cfg, "transparency", cfg.N(8, 16), cfg.N(24, 120), 30, true, 0)
+	if err != nil {
+		fmt.Println("INFRASTRUCTURE:", err)
+		return 2
+	}
+	type out struct{ msg string }
+	res, _ := sim.ParMap(len(worlds), sim.Workers(), nil, func(i int) out {
+		r := sim.Derive(cfg.Seed, "transparency", i)
+		iv := SetupInv(worlds[i])
+		switch r.Intn(4) {
+		case 0:
+			iv.Dry, iv.Print = true, true
+		case 1:
+			iv.Log = true
+		}
+		var obs [2]*StepResult
+		var roots [2]string
+		for k, bin := range []string{"sim", "plain"} {
+			root, err := env.NewWorldDir(worlds[i], "tp")
+			if err != nil {
+				return out{err.Error()}
+			}
+			defer env.DropWorldDir(root)
+			st := Step{Op: "run", Inv: &iv, Bin: bin}
+			if bin == "sim" {
+				st.Plan = &sim.Plan{}
+			}
+			rs := ExecSteps(env, root, []Step{st}, nil)
+			obs[k], roots[k] = &rs[0], root
+		}
+		a, b := obs[0], obs[1]
+		if a.Obs == nil || b.Obs == nil {
+			return out{"run failed to start"}
+		}
+		ea, eb := sim.Unsubst(string(a.Obs.Stderr), roots[0]), sim.Unsubst(string(b.Obs.Stderr), roots[1])
+		switch {
+		case a.Obs.Status != b.Obs.Status:
+			return out{fmt.Sprintf("%s: status %s vs %s", worlds[i].Name, a.Obs.Status, b.Obs.Status)}
+		case string(a.Obs.Stdout) != string(b.Obs.Stdout):
+			return out{worlds[i].Name + ": stdout differs"}
+		case ea != eb:
+			return out{worlds[i].Name + ": stderr differs"}
+		case string(a.OutBytes) != string(b.OutBytes):
+			return out{worlds[i].Name + ": output bytes differ"}
+		case fmt.Sprint(a.Pre.Diff(a.Post)) != fmt.Sprint(b.Pre.Diff(b.Post)):
+			return out{worlds[i].Name + ": tree diff differs"}
+		}
+		return out{}
+	})
+	bad := 0
+	for _, r := range res {
+		if r.msg != "" {
+			fmt.Println("TRANSPARENCY MISMATCH:", r.msg)
+			bad++
+		}
+	}
+	fmt.Printf("seam transparency: %d worlds, %d mismatches\n", len(worlds), bad)
+	if bad > 0 {
+		return 2
+	}
+	return 0
+}
